@@ -360,6 +360,9 @@ RESET_TIMER:
 			}
 			goto RESET_TIMER
 		case <-c:
+			if trd, ok := s.rd.Load().(time.Time); !ok || trd.IsZero() || time.Now().Before(trd) {
+				goto RESET_TIMER // the deadline was replaced after this timer was armed
+			}
 			return 0, errors.WithStack(errTimeout)
 		case <-s.chSocketReadError:
 			return 0, s.socketReadError.Load().(error)
@@ -452,6 +455,9 @@ RESET_TIMER:
 			}
 			goto RESET_TIMER
 		case <-c:
+			if twd, ok := s.wd.Load().(time.Time); !ok || twd.IsZero() || time.Now().Before(twd) {
+				goto RESET_TIMER // the deadline was replaced after this timer was armed
+			}
 			return 0, errors.WithStack(errTimeout)
 		case <-s.chSocketWriteError:
 			return 0, s.socketWriteError.Load().(error)
